@@ -98,6 +98,7 @@ class FieldCtx:
         self.u32_axiom = u32_axiom
         self.axioms_used = set()
         self.expand_limit = 16
+        self.const_mul = []  # constants c for which fmul(x, c) = c*x is instantiated
         self.exact_int = []  # exact definitions of integer UFs (imul, band, quotients) for concrete validation runs
         self.mono = {}  # monomial atom name -> {base atom: exponent}
         self.mono_names = {}  # canonical monomial key -> atom name
@@ -242,8 +243,10 @@ class FieldCtx:
             ab = z3.If(vb <= HALF, vb, P - vb)
             neg = z3.Xor(va > HALF, vb > HALF)
             U = 2**32 - 1
+            self.side.append(z3.And(M >= 0, M <= U * U))
+            # plain u32 operands (the common case): the field product is the integer product
+            self.side.append(z3.Implies(z3.And(va <= U, vb <= U), z3.And(r == M, r == self.imul(va, vb))))
             self.side.append(z3.Implies(z3.And(aa <= U, ab <= U), z3.And(
-                M >= 0, M <= U * U,
                 (M == 0) == z3.Or(aa == 0, ab == 0),
                 M <= U * aa, M <= U * ab,
                 z3.Implies(ab >= 1, M >= aa), z3.Implies(aa >= 1, M >= ab),
@@ -278,6 +281,11 @@ class FieldCtx:
             z3.Implies(r == vb, z3.Or(vb == 0, va == 1)),
         ]
         self.axioms_used.update([0, 1, 2, 3, 4, 6, 7])
+        # products with one of the listed constants are linear (used for square-and-multiply chains
+        # whose squarings are constants and whose selector bits are symbolic)
+        for cst in self.const_mul:
+            self.side.append(z3.Implies(vb == cst, r == self.value(a.scale(cst))))
+            self.side.append(z3.Implies(va == cst, r == self.value(b.scale(cst))))
         res = Lin({name: 1})
         # ground distributivity: (sum a_i x_i + a0)(sum b_j y_j + b0) = sum a_i b_j x_i y_j + ...
         na, nb = len(a.terms) + (a.const != 0), len(b.terms) + (b.const != 0)
